@@ -409,3 +409,7 @@ mod tests {
         assert_eq!(actual.values(), array.values())
     }
 }
+
+#[cfg(kani)]
+#[path = "/verif/kani/arrow-array/builder/boolean_builder.rs"]
+mod verif_kani;
